@@ -94,7 +94,7 @@ def cases(ctx):
     if S == 0:
         ctx.exhaustive.append("all 256 opcode byte values x stack depth 0..4 x two operand fillings; plus the complete C14 exhaustive program set re-run under the step-vs-run monitor")
     # (c) random tokens over all opcodes with hostile operands, unsteered
-    for _ in range(4000 if t else 60):
+    for _ in range(8000 if t else 60):
         n = r.choice([1, 2, 3, 5, 8, 15, 40])
         toks = []
         for _ in range(n):
@@ -111,7 +111,7 @@ def cases(ctx):
     for _ in range(2000 if t else 30):
         yield {"k": "script", "hex": gen.rbytes(r, r.choice([1, 2, 3, 5, 10, 30])).hex(), "tag": "random_bytes"}
     # (d) constructed scripts
-    for _ in range(700 if t else 25):
+    for _ in range(2000 if t else 25):
         yield {"k": "bits", "bits": rnd_bits(r, r.choice([1, 2, 4, 8, 16])), "tag": "constructed"}
     if S % 16 == 0:
         yield {"k": "bits", "bits": [{"push": "ab" * 100000}, {"op": 118}, {"op": 126}, {"op": 130}], "tag": "constructed"}
@@ -122,7 +122,7 @@ def cases(ctx):
     # (e) transaction-bound
     x = r.randrange(1, ec.N)
     pub = ec.ser(ec.mul_g(x), True)
-    for _ in range(400 if t else 14):
+    for _ in range(1000 if t else 14):
         ni = r.choice([1, 2, 3])
         tx = gen.gen_tx(r, ni, r.choice([0, 1, 2]), coinbase=False, script_kw={"n_tokens": 0})
         idx = r.randrange(ni)
@@ -143,10 +143,8 @@ def cases(ctx):
         yield {"k": "tx", "tx": wire.tx_encode(tx).hex(), "idx": idx, "ext": ext, "tag": "tx_bound", "nbits": len(un) + len(lk)}
 
 
-def judge(ctx, case, build=None):
+def request_of(case):
     k = case["k"]
-    ctx.hit("program")
-    ctx.hit(case["tag"])
     if k == "script":
         raw = bytes.fromhex(case["hex"])
         try:
@@ -160,27 +158,44 @@ def judge(ctx, case, build=None):
     else:
         nb = case["nbits"]
         req = {"op": "interp", "tx": case["tx"], "idx": case["idx"], "ext": case["ext"], "max_steps": nb + 1, "mode": "both"}
+    return req, nb
+
+
+def judge(ctx, case, build=None):
+    req, nb = request_of(case)
+    build = build or ctx.build
+    r = ctx.call(req, build=build)
+    assess(ctx, case, nb, r, build)
+
+
+def assess(ctx, case, nb, r, build):
+    k = case["k"]
+    ctx.hit("program")
+    ctx.hit(case["tag"])
     if nb:
         ctx.nontrivial()
-    r = ctx.call(req, build=build)
     ctx.ev()
     tag = "" if build in (None, "chk") else " [%s build]" % build
     if "drv_err" in r:
         if k == "script" and "script parse" in r["drv_err"]:
             ctx.hit("unparseable_script")
             # the parser rejected the bytes: not a script the library can parse
-            ctx.inconclusive.pop()
-            ctx.outcomes["drv_err"] -= 1
+            if ctx.inconclusive and "driver error" in ctx.inconclusive[-1]:
+                ctx.inconclusive.pop()
+                ctx.outcomes["drv_err"] -= 1
             return
         return
     if "alloc_guard" in r:
         ctx.note("allocation guard tripped while executing (memory is not part of C16)")
         return
+    if "miri_ub" in r:
+        ctx.viol("Miri reports an error while executing a script: %s" % C09.norm(r["miri_ub"]), {"stderr": r.get("stderr", "")[-1500:]})
+        return
     if "death" in r:
         d = r["death"]
         if d.get("code") == 99 or "AddressSanitizer" in d.get("stderr", ""):
             first = [l for l in d.get("stderr", "").splitlines() if "ERROR: AddressSanitizer" in l][:1]
-            ctx.viol("AddressSanitizer report while executing a script: %s" % (C09.norm(first[0]) if first else "unknown"), {"case": "see replay", "stderr": d.get("stderr", "")[:1500]})
+            ctx.viol("AddressSanitizer report while executing a script: %s" % (C09.norm(first[0].split("AddressSanitizer:")[-1].split(" on ")[0]) if first else "unknown"), {"case": "see replay", "stderr": d.get("stderr", "")[:1500]})
         else:
             ctx.viol("executing the script kills the process (%s)%s" % (d.get("signal") or d.get("code"), tag), {"death": {q: d[q] for q in d if q != "stderr"}})
         return
@@ -238,3 +253,57 @@ def judge(ctx, case, build=None):
         ctx.ev()
         if s["post"]["stack"] != s["last_ok"]["stack"] or s["post"]["alt"] != s["last_ok"]["alt"]:
             ctx.viol("state() after completion differs from the last returned state%s" % tag, {})
+
+
+def extra_stages(tier, seed, res):
+    """thorough only: release build (overflow wraps instead of panicking), AddressSanitizer build, and a small corpus under Miri"""
+    if tier != "thorough":
+        return []
+    from .. import core, miri
+
+    out = []
+    out += core.run_build_stage(__name__, "quick", seed + 101, "rel", list(range(0, 64)), 64, 600)
+    try:
+        out += core.run_build_stage(__name__, "quick", seed + 202, "asan", list(range(0, 64, 2)), 64, 900)
+    except Exception as e:
+        c = core.Ctx(ID, tier, seed, 0, 1)
+        c.note("asan stage skipped: %s" % str(e)[:200])
+        out.append(c.result())
+    ctx = core.Ctx(ID, "quick", seed + 303, 1, 64)
+    picked = []
+    per = {}
+    try:
+        for case in cases(ctx):
+            if case["tag"] == "tx_bound":
+                continue  # EC operations cost seconds each under Miri
+            if len(str(case)) > 1500:
+                continue
+            lim = 900 if case["tag"] == "c14exh" else 300
+            if per.get(case["tag"], 0) >= lim:
+                continue
+            per[case["tag"]] = per.get(case["tag"], 0) + 1
+            picked.append(case)
+    finally:
+        ctx.close()
+    reqs = [request_of(c) for c in picked]
+    # no signature opcodes with real keys here; hashing opcodes are fine
+    resps, diag = miri.run([q for q, _ in reqs], nproc=16, timeout_s=2400)
+    mctx = core.Ctx(ID, tier, seed, 0, 1)
+    if resps is None:
+        mctx.note("miri stage skipped: %s" % str(diag)[:300])
+    else:
+        n_ans = 0
+        for case, (q, nb), r in zip(picked, reqs, resps):
+            if r is None:
+                continue
+            n_ans += 1
+            mctx.begin(case)
+            assess(mctx, case, nb, r, "miri")
+            mctx.end()
+        mctx.note("miri requests answered", n_ans)
+        mctx.exhaustive.append("miri stage: %d interpreter programs stepped and run under Miri (%s)" % (n_ans, diag))
+    mr = mctx.result()
+    mr["hits"] = {"miri:%s" % k: v for k, v in mr["hits"].items()}
+    mr["samples"] = []
+    out.append(mr)
+    return out
